@@ -38,6 +38,11 @@ c = contract(F + "_get_asserted_transaction_types",
              ghost={"v": T.Abs("Visit")}, touch=["ins_stack_value"], tags=["C07", "C01"])
 
 
+from spec.keys import valid_key, key_base
+import contracts.key_helpers  # noqa: F401
+requires(c, "valid_key", lambda key: And(valid_key(key), Eq(key_base(key), "TransactionType")))
+
+
 def _sound(which, nonzero):
     def f(key, ins_stack_value, result, v):
         ty, oc, appid = _tau(v, key)
